@@ -19,11 +19,21 @@ func init() {
 	register("C05", "other", []string{
 		"decides: exact lookup before the prefix scan, scan predicate HasPrefix(declared, typed) over the cursor's own table, ambiguity ⇒ error (listing the sorted candidates) before any effect of that pair, resolution stores/looks up the full declared name, the typed prefix flows nowhere past resolution (non-interference)",
 		"map lookup and strings.HasPrefix semantics are trusted",
-	}, rC05Matcher, rC05ParserGates, rC05FullName, rC05NonInterference, func(w *World, r *Report) { subRule(w, r, rC01Splitter, "R05.7", "the typed text reaches the matcher as written (same obligations as C01 R01.2)", 5) })
+	}, rC05Matcher, rC05ParserGates, rC05FullName, rC05NonInterference, func(w *World, r *Report) {
+		subRule(w, r, rC01Splitter, "R05.7", "the typed text reaches the matcher as written (same obligations as C01 R01.2)", 5)
+	})
 	register("C06", "other", []string{
 		"decides: who may write Called/UsedAlias and the user variables; only the matched record is touched; aliases register the same record; New/Value/Save agree on the receiver field of every kind; the 12 definers have the same shape (default stored, kind ↔ pointer type, registration, modifiers) and their wrappers return the pointer they registered",
 		"behaviour of user-supplied modifier functions is not decided",
-	}, rC06Writers, rC06OnlyMatched, rC06Alias, rC06ReceiverOwnership, rC06Definers, rC06KindTable, rC06Readers, func(w *World, r *Report) { calledOnMatch(w, r, "R06.8") }, func(w *World, r *Report) { subRule(w, r, rC10CopyOptions, "R06.11", "the record a command sees is the parent's own (same obligations as C10 R10.5)", 3) }, func(w *World, r *Report) { subRule(w, r, rC01Splitter, "R06.12", "one-letter and non-ASCII aliases reach the matcher unmangled (same obligations as C01 R01.2)", 5) }, func(w *World, r *Report) { subRule(w, r, rC05Matcher, "R06.10", "names and aliases are interchangeable for abbreviations: the matcher treats every key of the table alike (same obligations as C05 R05.1)", 3) }, func(w *World, r *Report) { subRule(w, r, rC12GetEnvBody, "R06.9", "Called through the environment: the GetEnv modifier marks an option called only when it saved a valid non-empty value (same obligations as C12 R12.4)", 9) })
+	}, rC06Writers, rC06OnlyMatched, rC06Alias, rC06ReceiverOwnership, rC06Definers, rC06KindTable, rC06Readers, func(w *World, r *Report) { calledOnMatch(w, r, "R06.8") }, func(w *World, r *Report) {
+		subRule(w, r, rC10CopyOptions, "R06.11", "the record a command sees is the parent's own (same obligations as C10 R10.5)", 3)
+	}, func(w *World, r *Report) {
+		subRule(w, r, rC01Splitter, "R06.12", "one-letter and non-ASCII aliases reach the matcher unmangled (same obligations as C01 R01.2)", 5)
+	}, func(w *World, r *Report) {
+		subRule(w, r, rC05Matcher, "R06.10", "names and aliases are interchangeable for abbreviations: the matcher treats every key of the table alike (same obligations as C05 R05.1)", 3)
+	}, func(w *World, r *Report) {
+		subRule(w, r, rC12GetEnvBody, "R06.9", "Called through the environment: the GetEnv modifier marks an option called only when it saved a valid non-empty value (same obligations as C12 R12.4)", 9)
+	})
 	register("C07", "other", []string{
 		"decides: long options never consult the mode (information flow), Normal-mode single-dash branch ≡ long-option branch (structural equality), rune/byte unit consistency, bundling: one pair per character and only the last receives the attached value, single-dash: first rune is the option and the rest plus the attached text is the value; the parser hands the mode to the splitter only; Parse passes the root's mode",
 		"the string equivalences themselves (-xyz=v ≡ -x -y -z=v, -xREST ≡ --x=REST) are decided only through these structural conditions",
@@ -824,13 +834,14 @@ func rC06Definers(w *World, r *Report) {
 		nw := news[0].(*ssa.Call)
 		na := nw.Call.Args
 		var pParam, nameParam, defParam *ssa.Parameter
+		// positional: (gopt, p *T, name string[, def T], fns ...ModifyFn) - parameter names are not relied on
 		for _, p := range fn.Params[1:] {
 			switch {
-			case pParam == nil && isPointerType(p.Type()):
+			case pParam == nil && nameParam == nil && isPointerType(p.Type()):
 				pParam = p
-			case p.Name() == "name":
+			case pParam != nil && nameParam == nil && typeString(p.Type()) == "string":
 				nameParam = p
-			case p.Name() == "def":
+			case nameParam != nil && defParam == nil && !strings.HasPrefix(typeString(p.Type()), "[]getoptions.ModifyFn") && types.Identical(p.Type(), derefType(pParam.Type())):
 				defParam = p
 			}
 		}
@@ -1135,18 +1146,25 @@ func isSubmatchResult(v ssa.Value, seen map[ssa.Value]bool) bool {
 
 // canonicalStmts prints statements with local identifiers renamed in order of first appearance.
 func canonicalStmts(fset *token.FileSet, info *types.Info, stmts []ast.Stmt) string {
-	names := map[types.Object]string{}
+	names := map[string]string{} // local variable name -> positional name (objects sharing a name share the positional name)
+	var labels []string // labels declared in the statements, in order (renamed positionally)
 	var buf bytes.Buffer
 	for _, s := range stmts {
-		// copy-free renaming: collect identifiers, print, then substitute by position is complex; instead walk and
-		// build a token string manually
+		ast.Inspect(s, func(n ast.Node) bool {
+			if ls, ok := n.(*ast.LabeledStmt); ok {
+				labels = append(labels, ls.Label.Name)
+			}
+			return true
+		})
+	}
+	for _, s := range stmts {
 		ast.Inspect(s, func(n ast.Node) bool {
 			switch x := n.(type) {
 			case *ast.Ident:
 				obj := info.ObjectOf(x)
 				if v, ok := obj.(*types.Var); ok && !v.IsField() && v.Parent() != nil && v.Parent() != v.Pkg().Scope() {
-					if _, seen := names[obj]; !seen {
-						names[obj] = fmt.Sprintf("v%d", len(names))
+					if _, seen := names[obj.Name()]; !seen {
+						names[obj.Name()] = fmt.Sprintf("v%d", len(names))
 					}
 				}
 			}
@@ -1164,8 +1182,8 @@ func canonicalStmts(fset *token.FileSet, info *types.Info, stmts []ast.Stmt) str
 	// textual substitution of whole-word identifiers in deterministic order (longest first)
 	type kv struct{ from, to string }
 	var subs []kv
-	for obj, to := range names {
-		subs = append(subs, kv{obj.Name(), to})
+	for name, to := range names {
+		subs = append(subs, kv{name, to})
 	}
 	sort.Slice(subs, func(i, j int) bool {
 		if len(subs[i].from) != len(subs[j].from) {
@@ -1175,6 +1193,9 @@ func canonicalStmts(fset *token.FileSet, info *types.Info, stmts []ast.Stmt) str
 	})
 	for _, s := range subs {
 		out = replaceWord(out, s.from, "§"+s.to)
+	}
+	for i, l := range labels {
+		out = replaceWord(out, l, fmt.Sprintf("§L%d", i))
 	}
 	// strip comments and blank lines / indentation
 	var lines []string
@@ -1192,7 +1213,9 @@ func canonicalStmts(fset *token.FileSet, info *types.Info, stmts []ast.Stmt) str
 
 func replaceWord(s, from, to string) string {
 	var out strings.Builder
-	isIdent := func(b byte) bool { return b == '_' || b >= '0' && b <= '9' || b >= 'a' && b <= 'z' || b >= 'A' && b <= 'Z' }
+	isIdent := func(b byte) bool {
+		return b == '_' || b >= '0' && b <= '9' || b >= 'a' && b <= 'z' || b >= 'A' && b <= 'Z'
+	}
 	for i := 0; i < len(s); {
 		if strings.HasPrefix(s[i:], from) && (i == 0 || (!isIdent(s[i-1]) && s[i-1] != '.')) && (i+len(from) == len(s) || !isIdent(s[i+len(from)])) {
 			out.WriteString(to)
@@ -1250,6 +1273,70 @@ func rC07NormalIsLong(w *World, r *Report) {
 		}
 		return true
 	})
+	if normalBody == nil {
+		// if-chain form: `if mode == Bundling {…return}` `if mode == SingleDash {…return}` followed by the Normal
+		// statements, or `if … {…} else if … {…} else { Normal }`
+		isModeTest := func(e ast.Expr) bool {
+			be, ok := e.(*ast.BinaryExpr)
+			if !ok || be.Op != token.EQL {
+				return false
+			}
+			for _, side := range []ast.Expr{be.X, be.Y} {
+				if id, ok := side.(*ast.Ident); ok {
+					if v, ok := info.ObjectOf(id).(*types.Var); ok && typeString(v.Type()) == "getoptions.Mode" {
+						return true
+					}
+				}
+			}
+			return false
+		}
+		terminates := func(b *ast.BlockStmt) bool {
+			if b == nil || len(b.List) == 0 {
+				return false
+			}
+			_, ok := b.List[len(b.List)-1].(*ast.ReturnStmt)
+			return ok
+		}
+		ast.Inspect(decl.Body, func(n ast.Node) bool {
+			blk, ok := n.(*ast.BlockStmt)
+			if !ok || normalBody != nil {
+				return true
+			}
+			last := -1
+			for i, st := range blk.List {
+				ifs, ok := st.(*ast.IfStmt)
+				if !ok || ifs.Init != nil || !isModeTest(ifs.Cond) {
+					continue
+				}
+				// else-if chain ending in a plain else
+				cur := ifs
+				for cur != nil {
+					switch e := cur.Else.(type) {
+					case *ast.IfStmt:
+						if !isModeTest(e.Cond) {
+							cur = nil
+						} else {
+							cur = e
+						}
+						continue
+					case *ast.BlockStmt:
+						normalBody = e.List
+					}
+					break
+				}
+				if normalBody != nil {
+					return false
+				}
+				if ifs.Else == nil && terminates(ifs.Body) {
+					last = i
+				}
+			}
+			if last >= 0 && last+1 < len(blk.List) {
+				normalBody = blk.List[last+1:]
+			}
+			return true
+		})
+	}
 	if longBody == nil || normalBody == nil {
 		ru.Undecided("branches", w.Pos(fn.Pos()), fmt.Sprintf("long-option branch found=%v, Normal-mode branch found=%v", longBody != nil, normalBody != nil))
 		return
